@@ -159,7 +159,7 @@ def broken_theorems(prop, out):
     """names of the theorems that enclose the error positions of a lake output: those of Props/<prop>.lean, and
     (qualified `Cyy:name`) those of another Props file it imports (C01 imports the tie of `Wait` from C16)"""
     names = []
-    for f in sorted({m.group(1) for m in re.finditer(r"Props/(C\d+)\.lean:\d+:\d+", out)}, key=lambda x: (x != prop, x)):
+    for f in sorted({m.group(1) for m in re.finditer(r"error: \S*Props/(C\d+)\.lean:\d+:\d+", out)}, key=lambda x: (x != prop, x)):
         path = os.path.join(LEAN, "SockModel", "Props", f + ".lean")
         try:
             lines = strip_comments(open(path).read()).split("\n")
@@ -170,7 +170,7 @@ def broken_theorems(prop, out):
             m = re.match(r"\s*(?:@\[[^\]]*\]\s*)?(?:private\s+|protected\s+)?(theorem|def|example|instance|abbrev|lemma|macro)\b\s*(\S*)", line)
             if m:
                 starts.append((i, m.group(1), m.group(2)))
-        for m in re.finditer(r"Props/%s\.lean:(\d+):\d+" % re.escape(f), out):
+        for m in re.finditer(r"error: \S*Props/%s\.lean:(\d+):\d+" % re.escape(f), out):
             ln = int(m.group(1))
             cur = None
             for i, kind, name in starts:
